@@ -10,6 +10,7 @@ INVARIANT InstrRoundTrip
 INVARIANT InstrPrintStable
 INVARIANT ParseNormalIsFixpoint
 INVARIANT Placeholders
+INVARIANT NoAmbiguousDelay
 INVARIANT ProgramLevel
 INVARIANT ListingFixpoint
 INVARIANT GateParamValue
